@@ -146,15 +146,15 @@ U("setopt_args", entry="h_setopt_args", func="cfg_setopt", harness="harness/seto
 # ------------------------------------------------------------------ sections
 SECC = dict(remove=["cfg_free", "cfg_dupopt_array", "cfg_init_defaults"], carriers=["carriers/cfg_free.c", "carriers/cfg_dupopt_array.c", "carriers/cfg_init_defaults.c"])
 SECTXT = "7 literal option flag words (MULTI/TITLE/NO_TITLE_DUPES/NOCASE/KEYSTRVAL/DEFINIT) x 2 context flag words; titles 1 byte over all bytes"
-per_count("setopt_sec", counts_quick=(0, 1, 2), counts_thorough=(0, 1, 2), entry="h_setopt_sec", func="cfg_setopt", harness="harness/sections.c", replay_by_tag={"C19": "replay/print_layout.c"},
+per_count("setopt_sec", counts_quick=(0, 1, 2), counts_thorough=(0, 1, 2), entry="h_setopt_sec", func="cfg_setopt", harness="harness/sections.c", replay="replay/store_sections.c", replay_by_tag={"C19": "replay/print_layout.c"},
           cbmc=unw(8) + OOM, label="section arm; " + SECTXT + "; any allocation may fail", props=["C01", "C09", "C10", "C07", "C16", "C18", "C06", "C12", "C19", "C11", "C15", "C02"], cost=60, **SECC)
 U("setopt_sec_oom_release", entry="h_setopt_sec_oom_release", func="cfg_setopt", harness="harness/sections.c", defs={"quick": ["-DNV=2"]}, cbmc=unw(8) + OOM + LEAK,
   label="bounded(first titled instance of an empty multi section; any allocation may fail; failing outcomes only; leak check)", props=["C07", "C18", "C02"], cost=10, **SECC)
-per_count("gettsec", counts_quick=(0, 1, 2), counts_thorough=(0, 1, 2, 3), entry="h_gettsec", func="cfg_opt_gettsecidx, cfg_opt_gettsec", harness="harness/sections.c",
+per_count("gettsec", replay="replay/store_sections.c", counts_quick=(0, 1, 2), counts_thorough=(0, 1, 2, 3), entry="h_gettsec", func="cfg_opt_gettsecidx, cfg_opt_gettsec", harness="harness/sections.c",
           cbmc=unw(8), label=SECTXT, props=["C09", "C11", "C02"], cost=20, **SECC)
-per_count("rmnsec", counts_quick=(0, 1, 2), counts_thorough=(0, 1, 2, 3), entry="h_rmnsec", func="cfg_opt_rmnsec", harness="harness/sections.c",
+per_count("rmnsec", replay="replay/store_sections.c", counts_quick=(0, 1, 2), counts_thorough=(0, 1, 2, 3), entry="h_rmnsec", func="cfg_opt_rmnsec", harness="harness/sections.c",
           cbmc=unw(8) + LEAK, label=SECTXT + "; index 0,1,2,7", props=["C09", "C10", "C07", "C02"], cost=30, **SECC)
-per_count("rmtsec", counts_quick=(0, 1, 2), counts_thorough=(0, 1, 2, 3), entry="h_rmtsec", func="cfg_opt_rmtsec", harness="harness/sections.c",
+per_count("rmtsec", replay="replay/store_sections.c", counts_quick=(0, 1, 2), counts_thorough=(0, 1, 2, 3), entry="h_rmtsec", func="cfg_opt_rmtsec", harness="harness/sections.c",
           cbmc=unw(8), label=SECTXT, props=["C09", "C10", "C07", "C02"], cost=30, **SECC)
 
 # ------------------------------------------------------------------ grammar (cfg_parse_internal)
@@ -305,7 +305,7 @@ U("init_defaults_names", entry="h_init_defaults_names", func="cfg_init_defaults"
   props=["C01", "C06", "C02"], cost=5, trusted=ENTTRUST, **ENT, **ENTC)
 U("init_defaults_abort", entry="h_init_defaults_abort", func="cfg_init_defaults (abort path)", cbmc=unw(8) + NOOOM, expect_canary=False, label="proof (loop-free): finding unit", props=["C18", "C02"], cost=5,
   trusted=ENTTRUST, **ENT, **ENTC)
-U("addtsec", entry="h_addtsec", func="cfg_addtsec, cfg_gettsec, cfg_opt_gettsec, cfg_opt_gettsecidx", cbmc=unw(8) + NOOOM, label="bounded(one existing instance; titles 1 byte over all bytes; 4 case-rule combinations; store by contract)",
+U("addtsec", replay="replay/store_sections.c", entry="h_addtsec", func="cfg_addtsec, cfg_gettsec, cfg_opt_gettsec, cfg_opt_gettsecidx", cbmc=unw(8) + NOOOM, label="bounded(one existing instance; titles 1 byte over all bytes; 4 case-rule combinations; store by contract)",
   props=["C09", "C10", "C06", "C18", "C02"], cost=20, **ENT, **ENTC)
 
 for _sc in ("assign", "list", "append", "call", "emptysec", "sec", "titled", "nested", "twoassign"):
